@@ -388,6 +388,6 @@ func (p *Peer) Request(m message.Message, timeout time.Duration) (resp []byte, e
 		pr := p.Probe(m.Sequence(), time.Second)
 		return nil, pr.Answers, pr.Alive, fmt.Errorf("no response to %s seq %d: %w", m.MessageTypeName(), m.Sequence(), err)
 	}
-	pr := p.Probe(m.Sequence(), 2*time.Second)
+	pr := p.Probe(m.Sequence(), 6*time.Second)
 	return d.B, pr.Answers, pr.Alive, nil
 }
